@@ -52,7 +52,7 @@ theorem readExtAddr_bits (a : ExtAddr) (hw : a.WF) (rest : List Bool) (refs : Li
     simp only [Bool.false_eq_true, ↓reduceIte]
     rw [CellR.readBits_append _ _ _ 8 hl8]; simp only []
     rw [CellR.readBits_append _ _ _ 256 hl256]
-    simp [int8_roundtrip wc h1 h2, bitsToBytes_bytesToBits]
+    simp [int8_roundtrip wc h1 h2, bitsToBytes_bytesToBits_co]
 
 theorem readExtAction_bits (a : ExtAction) (hw : a.WF) (rest : List Bool) (refs : List Cell) :
     readExtAction { bits := extActionBits a ++ rest, refs := refs } = .ok (a, { bits := rest, refs := refs }) := by
